@@ -20,14 +20,15 @@ REQUIRED = {"alias-used-in>=2-blocks": 20, "alias-with-defined-param-used-in>=2-
             "redefinition:Define": 20, "redefinition:ModelAlias": 10, "negated-use": 20, "negated-use-of-negative-value": 5, "plus-prefixed-word-stays": 10,
             "undefined-word-stays": 20, "use-in-copied-table": 10, "use-in-conjugated-table": 10, "define-used>=4x": 10, "expanded-text-parsed": 50,
             "alias-with-photos": 5, "define-unused": 5}
-ASSUMPTIONS = ["Define'd names do not start with '-' or '+'; a ModelAlias stands for a published model (not for another alias)"]
+ASSUMPTIONS = ["Define'd names do not start with '-' or '+' (they may end in a sign); a ModelAlias stands for a published model (not for another alias)"]
 
 
 def gen_file(ctx):
     r = ctx.rng
     g = decgen.Gen(r)
     pairs = [(a, b) for a, b in names.antiparticle_pairs() if a in g.real and b in g.real]
-    dn = r.sample(["dm", "x", "y_1", "beta", "gam", "CKMphase", "w0"], r.choice([0, 1, 2, 3, 5]))
+    # names over the whole label alphabet, also ending in a sign, and words Python's float() would read (inf, nan): they are names here
+    dn = r.sample(["dm", "x", "y_1", "beta", "gam", "CKMphase", "w0", "H-", "K*", "x+", "inf", "nan", "Infinity", "a/b", "q'", "H+", "eps(1)~"], r.choice([0, 1, 2, 3, 5]))
     defines = []
     for n in dn:
         defines.append({"k": "Define", "name": n, "value": g.numlit()})
@@ -49,7 +50,7 @@ def gen_file(ctx):
             elif x < 0.82 and dn:
                 out.append("+" + r.choice(dn))
             else:
-                out.append(r.choice(["undefinedWord", "zz", "-qq", "phase", "alpha_s"]))
+                out.append(r.choice(["undefinedWord", "zz", "-qq", "phase", "alpha_s", "K*-", "H--", "x+-", "NaN", "-inf", "dm-", "beta+"]))
         return out
 
     for n in an:
